@@ -266,6 +266,9 @@ pub struct LedgerViolation {
 pub struct RecvStream {
     pub headers: Vec<(String, String)>,
     pub trailers: Vec<(String, String)>,
+    /// the same two lists byte-exact, as the HPACK decoder produced them (the `String` lists are lossy for obs-text)
+    pub raw_headers: Vec<(Vec<u8>, Vec<u8>)>,
+    pub raw_trailers: Vec<(Vec<u8>, Vec<u8>)>,
     pub body: Vec<u8>,
     pub data_frames: Vec<usize>,
     pub end_stream: bool,
@@ -624,14 +627,17 @@ impl<S: Read + Write> H2Conn<S> {
                     if let Some((sid, hflags, block)) = self.pending_headers.take() {
                         match self.dec.decode(&block) {
                             Ok(list) => {
+                                let raw: Vec<(Vec<u8>, Vec<u8>)> = list.iter().map(|(n, v)| (n.to_vec(), v.to_vec())).collect();
                                 let list: Vec<(String, String)> = list.into_iter().map(|(n, v)| (String::from_utf8_lossy(&n).to_string(), String::from_utf8_lossy(&v).to_string())).collect();
                                 let is_new = !self.streams.get(&sid).map(|s| s.headers_done).unwrap_or(false);
                                 let st = self.streams.entry(sid).or_default();
                                 if !st.headers_done {
                                     st.headers = list;
+                                    st.raw_headers = raw;
                                     st.headers_done = true;
                                 } else {
                                     st.trailers = list;
+                                    st.raw_trailers = raw;
                                 }
                                 if hflags & F_END_STREAM != 0 {
                                     st.end_stream = true;
